@@ -414,6 +414,7 @@ def _unver(t):
 
 
 def _check_iter_dispatch(prog: Program, rep: Report):
+    prog = prog.raw  # the routing itself ('yield from' to which loop) is the subject
     fi = prog.method("InterleavedSampler", "__iter__", own=True)
     fa = fa_of(prog, fi)
     cfg = fa.cfg
@@ -455,6 +456,7 @@ def _strip_bound(t):
 
 
 def _check_tables(prog: Program, rep: Report):
+    prog = prog.raw  # the data-source getter is compared as a unit (same getter for lengths and parts), not inlined
     rep.rule("G9.offset-table", "index_offsets is the prefix sum of the data-source lengths starting with the main data "
              "source: first entry len(DS(main_sampler)), each further entry previous + len(DS(config.sampler)) over "
              "self.configs in order; _InterleavedConcatDataset receives [DS(main_sampler)] + [DS(c.sampler) for c in "
